@@ -740,24 +740,38 @@ def general_module(ch, feat, nfuncs=8, host_funcs=0, with_trace=False, nglobals=
         if not imported_table:
             m.table = (tsize, None if ch.below(2) else tsize + ch.below(4))
         indirect_map = {}
+        seg_ranges, overwritten = [], set()
         nseg = 1 + ch.below(4)
         for s in range(nseg):
             ln = 1 + ch.below(5)
             use_g = bool(imported_globals) and ch.below(2) == 0
+            # segments whose offsets come from different sources (an immediate, the embedder's global) are made to overlap on
+            # purpose half of the time: which entry a slot ends up with is decided at instantiation, in segment order
+            other = [r for r in seg_ranges if r[2] != use_g]
             if use_g:
                 off = None          # offset = imported global 0 (value fixed by the harness: see info['glob_values'])
+                if 'elem_global_value' not in info and other and ch.below(2):
+                    ob, ol, _ = ch.pick(other)
+                    info['elem_global_value'] = max(0, min(ob + ch.below(ol), max(tsize - ln, 1) - 1))
                 base = info.setdefault('elem_global_value', ch.below(max(tsize - ln, 1)))
                 offins = ('global.get', 0)
             else:
                 base = ch.below(max(tsize - ln, 1))
+                if other and ch.below(2):
+                    ob, ol, _ = ch.pick(other)
+                    base = max(0, min(ob + ch.below(ol) - ch.below(ln), max(tsize - ln, 1) - 1))
                 offins = ('i32.const', base)
+            seg_ranges.append((base, ln, use_g))
             fl = []
             for k in range(ln):
                 fi = ch.below(nall)
                 fl.append(fi)
+                if base + k in indirect_map:
+                    overwritten.add(base + k)
                 indirect_map[base + k] = fi       # later segments win
             m.elems.append((offins, fl))
         info['table_map'] = indirect_map
+        info['table_overwritten'] = sorted(overwritten)
     for i in range(nfuncs):
         ps, rs = sigs[i]
         fidx = nimp + i
@@ -786,6 +800,23 @@ def general_module(ch, feat, nfuncs=8, host_funcs=0, with_trace=False, nglobals=
     for k, f in enumerate(extra):
         m.funcs.append(f)
         m.exports.append((b'r%d' % k, 'func', nimp + nfuncs + k))
+    # constant-index indirect calls, one exported function per chosen slot (slots written by more than one segment first): the
+    # index is an immediate, so everything about the call is known at translation time - except what instantiation put in the slot
+    if (table or imported_table) and info.get('table_map'):
+        tm = info['table_map']
+        ow = [s_ for s_ in info.get('table_overwritten', []) if s_ in tm]
+        rest = [s_ for s_ in sorted(tm) if s_ not in ow]
+        chosen = ow[:3] + ([ch.pick(rest)] if rest else [])
+        cargs = {I32: ('i32.const', 3), I64: ('i64.const', 5), F32: ('f32.const', 0x3fc00000), F64: ('f64.const', 0x4004000000000000)}
+        for s_ in chosen:
+            fi = tm[s_]
+            if trace_idx is not None and fi == trace_idx:
+                continue
+            ft = view.func_type(fi)
+            body = [cargs[p] for p in ft[0]] + [('i32.const', s_), ('call_indirect', m.type_index(ft[0], ft[1]))]
+            m.funcs.append(Func(m.type_index((), ft[1]), [], body))
+            m.exports.append((b'cslot%d' % s_, 'func', nimp + len(m.funcs) - 1))
+            info.setdefault('static', {})['constant_index_call_of_overwritten_slot' if s_ in ow else 'constant_index_call'] = True
     # re-export some imported functions (the export wrapper then forwards to the host function)
     for fi in range(nimp):
         if fi != trace_idx and ch.below(3) == 1:
